@@ -23,14 +23,14 @@ ID = 'C09'
 LEVEL = 'exploration'
 ENGINE = 'bex'
 RULE = (
-    'all ordered size tuples x id-assignment schemes {none, ascending, descending, interleaved across '
+    'all ordered size tuples x id-assignment schemes {none, ascending, descending, interleaved, wide (whole int64 range) across '
     'stores} x {list, pattern}; associated-store variants; refusal matrix per rule and position; '
     'non-trivial = >=2 input stores (a seam exists) or a refusal; distinct = distinct case'
 )
 ASSUMPTIONS = [
     '3-point trajectories; one temp directory per case; inputs created with the real store',
 ]
-SCHEMES = ['none', 'asc', 'desc', 'interleaved']
+SCHEMES = ['none', 'asc', 'desc', 'interleaved', 'wide']
 REFUSALS = ['fieldsets', 'mixed-ident-unid', 'mixed-ident-id', 'missing-input', 'wrong-suffix',
             'existing-output', 'bad-output-suffix', 'both-list-and-pattern', 'pattern-without-range']
 
